@@ -92,6 +92,9 @@ type world struct {
 	rnd   *rand.Rand
 	si    int
 	stop  bool
+	// layout: the frame layout on the wire differs from the model's (not part of the property); the
+	// behaviour goes on, but scripted partial deliveries may no longer make sense
+	layout bool
 }
 
 func sessOf(e string) string { return e[:1] }
@@ -148,17 +151,25 @@ func keyFor(s *stream, leftPending bool, generic string) string {
 	return generic
 }
 
+// layoutDrift notes a difference in the frame layout without abandoning the behaviour: what the
+// property says about the request and the byte streams is still checked by the following steps.
+func (w *world) layoutDrift(key, format string, a ...any) {
+	w.drift(key, format, a...)
+	w.stop = false
+	w.layout = true
+}
+
 // checkTW compares the sizes of the transport writes a call made with the frame layout of the model.
 // Layout is not part of the property: a difference is model drift.
 func (w *world) checkTW(l *streamkit.Link, before int, want []int, what string) {
 	got := l.Writes[before:]
 	if len(got) != len(want) {
-		w.drift("stream.layout/transport-writes", "%s: %d transport writes %v, model expects %v", what, len(got), head(got), head(want))
+		w.layoutDrift("stream.layout/transport-writes", "%s: %d transport writes %v, model expects %v", what, len(got), head(got), head(want))
 		return
 	}
 	for i := range got {
 		if got[i] != want[i] {
-			w.drift("stream.layout/transport-writes", "%s: transport write %d has %d bytes, model expects %d", what, i, got[i], want[i])
+			w.layoutDrift("stream.layout/transport-writes", "%s: transport write %d has %d bytes, model expects %d", what, i, got[i], want[i])
 			return
 		}
 	}
@@ -216,6 +227,10 @@ func (w *world) step(a action) {
 			l.Deliver(-1)
 		} else {
 			if a.K >= l.InFlight() {
+				if w.layout {
+					w.stop = true // the layout already drifted: this scripted segmentation does not apply
+					return
+				}
 				// the real request is longer or shorter than the model's only by its random padding
 				w.res.Break("behaviour %d step %d: partial delivery of %d bytes but only %d in flight", w.bi, w.si, a.K, l.InFlight())
 				w.stop = true
@@ -289,8 +304,7 @@ func (w *world) dial(a action) {
 	fixed := w.k.ReqPfx + w.k.KeyLen + w.k.Depth*ss2022.IdentityHeaderLength + ss2022.TCPRequestFixedLengthHeaderLength + w.k.Tag + a.Al + 2 + inreq + w.k.Tag
 	pad := wr[0] - fixed
 	if !w.padOK(a.P, room, pad) {
-		w.drift("stream.layout/request-padding", "request of %d bytes for payload %d, address %d: padding %d outside the rule", wr[0], a.P, a.Al, pad)
-		return
+		w.layoutDrift("stream.layout/request-padding", "request of %d bytes for payload %d, address %d: padding %d outside the rule", wr[0], a.P, a.Al, pad)
 	}
 	if len(a.Out.Tw) > 0 {
 		want := append([]int{wr[0]}, a.Out.Tw[1:]...)
